@@ -69,6 +69,7 @@ type FuncContract struct {
 	Bounded   string // non-empty: this unit is a bounded check with the stated bound
 	Establishes []string
 	ThoroughOnly bool
+	Abstract     bool // the contract is used at every call, even inside body(...) (the function stays uninterpreted)
 	CbModifies   []Clause // what a call through a function value (callback) may modify
 	CbEnsures    []Clause // what is assumed after such a call (the callbacks' contract)
 	CbRequires   []Clause // what must hold before such a call
@@ -157,7 +158,7 @@ func newContracts() *Contracts {
 		Ghosts: map[string]*GhostVar{}, Externs: map[string]*FuncContract{}, Writers: map[string][]string{}, Scenarios: map[string]*Scenario{}, ImportsByPkg: map[string][]string{}}
 }
 
-var kwRe = regexp.MustCompile(`^(import|define|ghost|func|extern|lemma|axiom|fact|scenario|do|establishes|writers|callers-inline|thorough-only|prefix-only|callback-modifies|callback-ensures|callback-requires|views|at-call|allow-extern|props|requires|ensures|modifies|nopanic|exact-conversions|trusted|inline|split|loop|assert|use|hyp|concl|timeout|bounded|opaque)\b`)
+var kwRe = regexp.MustCompile(`^(import|define|ghost|func|extern|lemma|axiom|fact|scenario|do|establishes|writers|callers-inline|thorough-only|prefix-only|abstract|callback-modifies|callback-ensures|callback-requires|views|at-call|allow-extern|props|requires|ensures|modifies|nopanic|exact-conversions|trusted|inline|split|loop|assert|use|hyp|concl|timeout|bounded|opaque)\b`)
 
 func parseExprSrc(src string) (ast.Expr, error) {
 	// ==> is written as implies(); allow `a ==> b` at top level as sugar, right-assoc
@@ -407,6 +408,8 @@ func (cs *Contracts) LoadContractFile(path string, pkgShort string) error {
 			} else {
 				cur.CbRequires = append(cur.CbRequires, c)
 			}
+		case "abstract":
+			cur.Abstract = true
 		case "prefix-only":
 			cur.PrefixOnly = true
 		case "thorough-only":
